@@ -83,8 +83,14 @@ static void run_case_body(std::ostream& os, uint64_t s0, long long id, const std
     if (batch) xs.push_back(jints({ct, fr, pc, rs, tree, ok, k}));
     else os << Ev("Exec").kn("ct", ct).kn("fr", fr).kn("pc", pc).kn("rs", rs).kn("tree", tree).kn("ok", ok).kn("k", k).str() << "\n";
   };
+  // about every second case executes all its configurations into Paths64 on ONE clipper object (the postcondition of an Execute does not
+  // depend on how many Executes went before it); the other cases, and all tree executions, use a fresh object per call
+  const bool reuse_obj = (hash_paths(all) >> 7) % 2 == 0;   /* a property of the input, so that the replay of a single case behaves the same */ Clipper64 shared; if (reuse_obj) { if (!ES.empty()) shared.AddSubject(ES); if (!EC.empty()) shared.AddClip(EC); }
   for (int ct : cts) for (int fr : frs) for (int pc : pcs) for (int rs : rss) {
-    ExecRes p = run_exec(ES, none, EC, ct, fr, pc, rs, nullptr); ++nexec;
+    ExecRes p;
+    if (reuse_obj) { shared.PreserveCollinear(pc != 0); shared.ReverseSolution(rs != 0); p.ok = shared.Execute((ClipType)ct, (FillRule)fr, p.closed, p.open); }
+    else p = run_exec(ES, none, EC, ct, fr, pc, rs, nullptr);
+    ++nexec;
     int k = reg.get(p.closed);
     exec_ev(ct, fr, pc, rs, 0, p.ok, k);
     if (cfg != "notree") {
